@@ -72,10 +72,10 @@ type c07Msg struct {
 }
 
 func (m *c07Msg) TransportSenderID() net.TransportIdentifier { return nil }
-func (m *c07Msg) SenderPublicKey() []byte                     { return m.key }
-func (m *c07Msg) Payload() interface{}                        { return m.payload }
-func (m *c07Msg) Type() string                                { return m.typ }
-func (m *c07Msg) Seqno() uint64                               { return 0 }
+func (m *c07Msg) SenderPublicKey() []byte                    { return m.key }
+func (m *c07Msg) Payload() interface{}                       { return m.payload }
+func (m *c07Msg) Type() string                               { return m.typ }
+func (m *c07Msg) Seqno() uint64                              { return 0 }
 
 var c07Types = []string{
 	(&ephemeralPublicKeyMessage{}).Type(),
@@ -196,6 +196,21 @@ func (c c07Cfg) validator() *group.MembershipValidator {
 		ops[i-1] = c07Signing{}.PublicKeyBytesToAddress(c.key(i))
 	}
 	return group.NewMembershipValidator(&testutils.MockLogger{}, ops, c07Signing{})
+}
+
+// c07SetString renders member indexes as a sorted set (the statement does not fix an
+// order for the misbehaved list).
+func c07SetString(xs []group.MemberIndex) string {
+	seen := map[group.MemberIndex]bool{}
+	var ys []int
+	for _, x := range xs {
+		if !seen[x] {
+			seen[x] = true
+			ys = append(ys, int(x))
+		}
+	}
+	sort.Ints(ys)
+	return fmt.Sprint(ys)
 }
 
 // c07ExclusionSets lists every exclusion set leaving at least h operating members.
@@ -323,6 +338,8 @@ type c07Run struct {
 	injections int      // injected messages handed to Receive
 	refused    int      // forged messages refused by the wire decoder
 	receives   int
+	early      int // genuine messages handed to a state of an earlier phase
+	stale      int // genuine messages handed to a state of a later phase (duplicates)
 	notes      []string
 }
 
@@ -577,8 +594,34 @@ func (run *c07Run) note(format string, a ...any) {
 	run.mu.Unlock()
 }
 
+// c07StatePhase: the message phase a state waits for (the silent symmetric key state
+// belongs to phase 1: it follows the ephemeral key exchange).
+func c07StatePhase(st state.AsyncState) int {
+	switch st.(type) {
+	case *ephemeralKeyPairGenerationState, *symmetricKeyGenerationState:
+		return 1
+	case *tssRoundOneState:
+		return 2
+	case *tssRoundTwoState:
+		return 3
+	case *tssRoundThreeState:
+		return 4
+	case *finalizationState:
+		return 5
+	}
+	return 0
+}
+
 func (run *c07Run) receive(m *c07Member, msg *c07Msg) {
 	run.receives++
+	if msg.injected == "" && msg.sender != m.idx {
+		switch k, cur := c07Phase(msg.typ), c07StatePhase(m.st); {
+		case k > cur:
+			run.early++
+		case k < cur:
+			run.stale++
+		}
+	}
 	if p, stack := vrep.Guard(func() {
 		if err := m.st.Receive(msg); err != nil && m.err == nil {
 			m.err = fmt.Errorf("%s.Receive: %v", c07StateName(m.st), err)
@@ -826,21 +869,25 @@ func c07Execute(cs c07Case) *c07Result {
 // ---- outcome ----
 
 type c07Result struct {
-	Case       string            `json:"case"`
-	Finished   []int             `json:"finished"`
-	NotDone    map[int]string    `json:"not_done,omitempty"` // member -> state it stalled in / error
-	Keys       map[int]string    `json:"keys"`
-	Misbehaved map[int]string    `json:"misbehaved"`
-	History    map[int]string    `json:"history"`
-	Accepted   []string          `json:"accepted,omitempty"`
-	BadHistory []string          `json:"bad_history,omitempty"`
-	Joiners    map[int]string    `json:"joiners,omitempty"`
-	Shares     map[int]*c07Share `json:"-"`
-	Injections int               `json:"injections"`
-	Refused    int               `json:"refused"`
-	Receives   int               `json:"receives"`
-	Steps      int               `json:"steps"`
-	Notes      []string          `json:"notes,omitempty"`
+	Case          string            `json:"case"`
+	Finished      []int             `json:"finished"`
+	NotDone       map[int]string    `json:"not_done,omitempty"` // member -> state it stalled in / error
+	Keys          map[int]string    `json:"keys"`
+	Misbehaved    map[int]string    `json:"misbehaved"`
+	MisbehavedSet map[int]string    `json:"-"` // the same as a sorted set
+	History       map[int]string    `json:"history"`
+	Accepted      []string          `json:"accepted,omitempty"`
+	BadHistory    []string          `json:"bad_history,omitempty"`
+	Joiners       map[int]string    `json:"joiners,omitempty"`
+	Shares        map[int]*c07Share `json:"-"`
+	Injections    int               `json:"injections"`
+	Refused       int               `json:"refused"`
+	Receives      int               `json:"receives"`
+	Steps         int               `json:"steps"`
+	Stored        int               `json:"stored"` // genuine messages that entered a history
+	Early         int               `json:"early"`
+	Stale         int               `json:"stale"`
+	Notes         []string          `json:"notes,omitempty"`
 }
 
 type c07Share struct {
@@ -849,9 +896,9 @@ type c07Share struct {
 
 func (run *c07Run) result() *c07Result {
 	cfg := run.cs.Cfg
-	res := &c07Result{Case: run.cs.String(), NotDone: map[int]string{}, Keys: map[int]string{}, Misbehaved: map[int]string{},
+	res := &c07Result{Case: run.cs.String(), NotDone: map[int]string{}, Keys: map[int]string{}, Misbehaved: map[int]string{}, MisbehavedSet: map[int]string{},
 		History: map[int]string{}, Joiners: map[int]string{}, Shares: map[int]*c07Share{},
-		Accepted: run.accepted, Injections: run.injections, Refused: run.refused, Receives: run.receives, Notes: run.notes}
+		Accepted: run.accepted, Injections: run.injections, Refused: run.refused, Receives: run.receives, Early: run.early, Stale: run.stale, Notes: run.notes}
 	for _, m := range run.members {
 		res.Steps += m.steps
 		describe := func() string {
@@ -911,6 +958,7 @@ func (run *c07Run) result() *c07Result {
 				}
 				if pm != nil {
 					senders = append(senders, fmt.Sprint(pm.SenderID()))
+					res.Stored++
 				}
 			}
 			hist = append(hist, c07Short(t)+":"+strings.Join(senders, ","))
@@ -928,6 +976,7 @@ func (run *c07Run) result() *c07Result {
 		res.Finished = append(res.Finished, m.idx)
 		res.Keys[m.idx] = hex.EncodeToString(kb)
 		res.Misbehaved[m.idx] = fmt.Sprint(dr.MisbehavedMembersIndexes())
+		res.MisbehavedSet[m.idx] = c07SetString(dr.MisbehavedMembersIndexes())
 		res.Shares[m.idx] = &c07Share{dr}
 	}
 	return res
@@ -1013,10 +1062,7 @@ func c07Oracle(r *vrep.R, cs c07Case, res, base *c07Result) {
 	report := func(kind, what string) {
 		r.ViolationMin(kind, len(cs.Cfg.Excluded)*100+cs.Cfg.N*10+len(cs.Policy.Name), fp, what, cs)
 	}
-	want := fmt.Sprint(cs.Cfg.excludedIndexes())
-	if len(cs.Cfg.Excluded) == 0 {
-		want = "[]"
-	}
+	want := c07SetString(cs.Cfg.excludedIndexes())
 	for _, i := range res.Finished {
 		if res.Keys[i] != res.Keys[res.Finished[0]] {
 			report("key-disagreement", fmt.Sprintf("operating members %d and %d finished with different wallet public keys %s.. / %s..",
@@ -1026,7 +1072,7 @@ func c07Oracle(r *vrep.R, cs c07Case, res, base *c07Result) {
 			report("misbehaved-disagreement", fmt.Sprintf("operating members %d and %d finished with different misbehaved lists %s / %s",
 				res.Finished[0], i, res.Misbehaved[res.Finished[0]], res.Misbehaved[i]))
 		}
-		if res.Misbehaved[i] != want {
+		if res.MisbehavedSet[i] != want {
 			report("misbehaved-not-exclusion-set", fmt.Sprintf("member %d finished with misbehaved list %s, excluded were %s", i, res.Misbehaved[i], want))
 		}
 	}
@@ -1054,50 +1100,84 @@ func c07Oracle(r *vrep.R, cs c07Case, res, base *c07Result) {
 
 // ---- work list ----
 
-type c07Group struct {
-	cfg      c07Cfg
-	policies []c07Policy
-	join     bool
+// c07Item is one unit of work: a case run with injections; with Diff also the same case
+// without them (differential oracle); with Join also the variant in which the excluded
+// members take part with their valid keys.
+type c07Item struct {
+	Cfg    c07Cfg
+	Policy c07Policy
+	Diff   bool
+	Join   bool
 }
 
-func c07Policies(cfg c07Cfg, victims []int) []c07Policy {
-	ps := []c07Policy{{Name: "inorder"}, {Name: "dup"}, {Name: "reverse"}}
-	for _, v := range victims {
-		ps = append(ps, c07Policy{Name: "swap", Victim: v, Parity: 1}, c07Policy{Name: "swap", Victim: v, Parity: 0}, c07Policy{Name: "laggard", Victim: v})
+func (it c07Item) weight() int {
+	k := len(it.Cfg.operating())
+	w := k * k
+	if it.Diff {
+		w *= 2
 	}
-	return ps
+	if it.Join {
+		w += (k + len(it.Cfg.Excluded)) * (k + len(it.Cfg.Excluded))
+	}
+	return w
 }
 
-func c07Groups(thorough bool) []c07Group {
-	var gs []c07Group
+// c07ItemsFor: all policies for one configuration. The victims of the per-receiver
+// policies are the lowest and the highest operating seat.
+func c07ItemsFor(cfg c07Cfg) []c07Item {
+	op := cfg.operating()
+	lo, hi := op[0], op[len(op)-1]
+	join := len(cfg.Excluded) > 0
+	items := []c07Item{
+		{Cfg: cfg, Policy: c07Policy{Name: "inorder"}, Diff: true, Join: join},
+		{Cfg: cfg, Policy: c07Policy{Name: "dup"}, Diff: true},
+		{Cfg: cfg, Policy: c07Policy{Name: "reverse"}},
+		{Cfg: cfg, Policy: c07Policy{Name: "swap", Victim: lo, Parity: 1}, Diff: true},
+		{Cfg: cfg, Policy: c07Policy{Name: "swap", Victim: lo, Parity: 0}},
+		{Cfg: cfg, Policy: c07Policy{Name: "laggard", Victim: lo}},
+	}
+	if hi != lo {
+		items = append(items,
+			c07Item{Cfg: cfg, Policy: c07Policy{Name: "swap", Victim: hi, Parity: 1}},
+			c07Item{Cfg: cfg, Policy: c07Policy{Name: "swap", Victim: hi, Parity: 0}},
+			c07Item{Cfg: cfg, Policy: c07Policy{Name: "laggard", Victim: hi}, Diff: true})
+	}
+	return items
+}
+
+func c07Items(thorough bool) []c07Item {
+	var items []c07Item
 	if !thorough {
-		// quick: 2-of-3 without exclusion, 3-of-5 with one exclusion
+		// quick: 2-of-3 without exclusion, 3-of-5 with one exclusion, 2-of-3 with one
 		c1 := c07Cfg{N: 3, H: 2}
-		gs = append(gs, c07Group{cfg: c1, policies: []c07Policy{{Name: "inorder"}, {Name: "swap", Victim: 3, Parity: 1}}})
 		c2 := c07Cfg{N: 5, H: 3, Excluded: []int{2}}
-		gs = append(gs, c07Group{cfg: c2, policies: []c07Policy{{Name: "inorder"}, {Name: "laggard", Victim: 4}}, join: true})
 		c3 := c07Cfg{N: 3, H: 2, Excluded: []int{1}}
-		gs = append(gs, c07Group{cfg: c3, policies: []c07Policy{{Name: "dup"}, {Name: "swap", Victim: 2, Parity: 0}}, join: true})
-		return gs
+		items = []c07Item{
+			{Cfg: c2, Policy: c07Policy{Name: "inorder"}, Diff: true, Join: true},
+			{Cfg: c1, Policy: c07Policy{Name: "inorder"}, Diff: true},
+			{Cfg: c1, Policy: c07Policy{Name: "swap", Victim: 3, Parity: 1}},
+			{Cfg: c1, Policy: c07Policy{Name: "laggard", Victim: 1}},
+			{Cfg: c3, Policy: c07Policy{Name: "dup"}, Diff: true, Join: true},
+			{Cfg: c3, Policy: c07Policy{Name: "swap", Victim: 2, Parity: 0}},
+		}
+		return items
 	}
-	for _, nh := range [][2]int{{5, 3}, {3, 2}, {4, 3}} {
+	for _, nh := range [][2]int{{5, 3}, {3, 2}} {
 		for _, e := range c07ExclusionSets(nh[0], nh[1]) {
-			cfg := c07Cfg{N: nh[0], H: nh[1], Excluded: e}
-			gs = append(gs, c07Group{cfg: cfg, policies: c07Policies(cfg, cfg.operating()), join: len(e) > 0})
+			items = append(items, c07ItemsFor(c07Cfg{N: nh[0], H: nh[1], Excluded: e})...)
 		}
 	}
-	// one operator holding two seats, one of them excluded
-	for _, e := range [][]int{{3}, {2}, {2, 3}} {
-		cfg := c07Cfg{N: 4, H: 2, Excluded: e, Operators: []int{1, 2, 2, 4}}
-		gs = append(gs, c07Group{cfg: cfg, policies: []c07Policy{{Name: "inorder"}, {Name: "dup"}}, join: true})
+	// one operator holding two seats, one of them excluded: the forged "operating key
+	// claims the excluded seat" passes the membership validator
+	for _, e := range [][]int{{3}, {2}} {
+		cfg := c07Cfg{N: 3, H: 2, Excluded: e, Operators: []int{1, 2, 2}}
+		items = append(items,
+			c07Item{Cfg: cfg, Policy: c07Policy{Name: "inorder"}, Diff: true, Join: true},
+			c07Item{Cfg: cfg, Policy: c07Policy{Name: "dup"}})
 	}
-	// heaviest groups first so that the shards are balanced
-	sort.SliceStable(gs, func(a, b int) bool {
-		wa := len(gs[a].policies) * len(gs[a].cfg.operating())
-		wb := len(gs[b].policies) * len(gs[b].cfg.operating())
-		return wa > wb
-	})
-	return gs
+	// heaviest first, so that the round-robin over the shards is balanced
+	sort.SliceStable(items, func(a, b int) bool { return items[a].weight() > items[b].weight() })
+	return items
 }
 
 func c07RunCase(r *vrep.R, cs c07Case, base *c07Result) *c07Result {
@@ -1106,6 +1186,9 @@ func c07RunCase(r *vrep.R, cs c07Case, base *c07Result) *c07Result {
 	r.Distinct(cs.String())
 	r.Outcome(res.class())
 	r.Add("receives", int64(res.Receives))
+	r.Add("messages_admitted_to_history", int64(res.Stored))
+	r.Add("messages_delivered_before_their_phase", int64(res.Early))
+	r.Add("messages_delivered_after_their_phase", int64(res.Stale))
 	r.Add("injected_messages", int64(res.Injections))
 	r.Add("forgeries_refused_by_decoder", int64(res.Refused))
 	r.Add("states_entered", int64(res.Steps))
@@ -1114,12 +1197,27 @@ func c07RunCase(r *vrep.R, cs c07Case, base *c07Result) *c07Result {
 	} else {
 		r.Add("runs_with_unfinished_operating_member", 1)
 	}
-	r.Sample(map[string]any{"case": cs.String(), "class": res.class(), "injections": res.Injections, "history_member": res.History[cs.Cfg.operating()[0]]})
+	r.Sample(map[string]any{"case": cs.String(), "class": res.class(), "injections": res.Injections, "history_of_first_member": res.History[cs.Cfg.operating()[0]]})
 	c07Oracle(r, cs, res, base)
 	return res
 }
 
+func c07RunItem(r *vrep.R, it c07Item) {
+	var base *c07Result
+	if it.Diff {
+		base = c07RunCase(r, c07Case{Cfg: it.Cfg, Policy: it.Policy}, nil)
+		r.Add("differential_pairs", 1)
+	}
+	c07RunCase(r, c07Case{Cfg: it.Cfg, Policy: it.Policy, Inject: true}, base)
+	if it.Join {
+		c07RunCase(r, c07Case{Cfg: it.Cfg, Policy: it.Policy, Inject: true, Join: true}, base)
+	}
+}
+
 func TestVerifC07Timing(t *testing.T) {
+	if os.Getenv("VERIF_C07_TIMING") == "" {
+		t.Skip("manual")
+	}
 	for _, cfg := range []c07Cfg{{N: 3, H: 2}, {N: 5, H: 3}} {
 		t0 := time.Now()
 		res := c07Execute(c07Case{Cfg: cfg, Policy: c07Policy{Name: "inorder"}})
@@ -1144,29 +1242,23 @@ func TestVerifC07(t *testing.T) {
 		}
 		return
 	}
-	groups := c07Groups(r.Thorough())
-	r.Set("groups", len(groups))
+	items := c07Items(r.Thorough())
+	r.Set("work_items", len(items))
+	configs := map[string]bool{}
+	for _, it := range items {
+		configs[it.Cfg.String()] = true
+	}
+	r.Set("configurations", len(configs))
 	done := 0
-	for gi, g := range groups {
-		if !r.Mine(gi) {
+	for i, it := range items {
+		if !r.Mine(i) {
 			continue
 		}
-		for _, p := range g.policies {
-			if r.Expired() {
-				return
-			}
-			plain := c07Case{Cfg: g.cfg, Policy: p}
-			base := c07RunCase(r, plain, nil)
-			inj := plain
-			inj.Inject = true
-			c07RunCase(r, inj, base)
-			if g.join && p.Name == "inorder" {
-				j := plain
-				j.Inject, j.Join = true, true
-				c07RunCase(r, j, base)
-			}
+		if r.Expired() {
+			break
 		}
+		c07RunItem(r, it)
 		done++
 	}
-	r.Set("groups_completed_by_this_process", done)
+	r.Add("work_items_completed", int64(done))
 }
